@@ -5,23 +5,49 @@
    computed here on sorted duplicate-free int lists and on the implementation's own dumps, without
    any use of the model -- on the implementation's outputs. *)
 
-let eqb (a : int) (b : int) = a = b
+let eqb (a : int) = let f (b : int) = a = b in f   (* arity 1 returning a closure: the model applies it partially (existsb (eqb x) l) *)
 let zero = 0
 let mask_n = 8
 
 exception Bad_syntax
 
+let int_of' s = match int_of_string_opt s with Some n -> n | None -> raise Bad_syntax
+(* a list of codes: ints and runs lo~hi / lo~hi~step (lo, lo+step, ... below hi) *)
 let ints_of' s =
   if s = "." || s = "" then [] else
-  List.map (fun x -> match int_of_string_opt x with Some n -> n | None -> raise Bad_syntax) (String.split_on_char ',' s)
-let int_of' s = match int_of_string_opt s with Some n -> n | None -> raise Bad_syntax
+  List.concat_map (fun x ->
+    if String.contains x '~' then
+      (match String.split_on_char '~' x with
+       | [lo; hi] | [lo; hi; _] as q ->
+         let lo = int_of' lo and hi = int_of' hi in
+         let step = (match q with [_; _; st] -> int_of' st | _ -> 1) in
+         if step < 1 || hi - lo > 1 lsl 22 then raise Bad_syntax else
+         let rec go x acc = if x >= hi then List.rev acc else go (x + step) (x :: acc) in go lo []
+       | _ -> raise Bad_syntax)
+    else [int_of' x]) (String.split_on_char ',' s)
 let sorted l = List.sort compare l
 let rec dedup_first = function [] -> [] | x :: r -> x :: dedup_first (List.filter (fun y -> y <> x) r)
 
+(* the scale kinds (Si Sx Ss St: codes of ints / extreme ints / strings / structs on the Go side, plain
+   codes here -- the model and the reference are about any element type with a decidable equality
+   and the harness' code -> value maps are injective with 0 -> the zero value) print every list of
+   more than 64 codes in the output as #<digest of the sorted codes> *)
+let digest_over = 64
+let digest (xs : int list) =
+  let m1 = 2147483647 and p1 = 1000003 and m2 = 2147483629 and p2 = 1000033 in
+  let (h1, h2) = List.fold_left (fun (h1, h2) x ->
+    let a = ((x mod m1) + m1) mod m1 and b = ((x mod m2) + m2) mod m2 in
+    ((h1 * p1 + a) mod m1, (h2 * p2 + b) mod m2)) (7, 7) xs in
+  Printf.sprintf "%08x%08x" h1 h2
+let rec longer l n = match l with [] -> false | _ :: r -> n = 0 || longer r (n - 1)
+let show_ints scale l = if scale && longer l digest_over then "#" ^ digest l else str_ints l
+
+let is_scale kind = String.length kind = 2 && kind.[0] = 'S' && String.contains "ixst" kind.[1]
 let parse_case inp =
   match words inp with
-  | [_kind; k; ops] -> (int_of' k, List.map (String.split_on_char ':') (String.split_on_char ';' ops))
-  | [_kind; k] -> (int_of' k, [])
+  | [kind; k; ops] when is_scale kind || List.mem kind ["X"; "B"; "H"] ->
+    (is_scale kind, int_of' k, List.map (String.split_on_char ':') (String.split_on_char ';' ops))
+  | [kind; k] when is_scale kind || List.mem kind ["X"; "B"; "H"] -> (is_scale kind, int_of' k, [])
   | _ -> raise Bad_syntax
 
 (* ---------------------------------------------------------------- model side *)
@@ -67,10 +93,10 @@ let build_op k st p : int M.op =
   | "meets" -> M.OIntersects (v 1, v 2, M.m_keys (fst (M.intersects_operands (st (v 1)) (st (v 2)))))
   | "sub" -> M.OIsSubset (v 1, v 2, M.m_keys (st (v 1)))
   | "eq" -> M.OEquals (v 1, v 2, M.m_keys (st (v 1)))
-  | "slice" -> M.OSlice (v 1, l 2)
-  | "append" ->
+  | "slice" -> M.OSlice (v 1, if nth_arg p 2 = "#" then M.m_keys (st (v 1)) else l 2)
+  | "append" | "appendf" ->
     let vs = if nth_arg p 2 = "n" then None else Some (l 2) in
-    M.OAppend (v 1, vs, l 3)
+    M.OAppend (v 1, vs, if nth_arg p 3 = "#" then M.m_keys (st (v 1)) else l 3)
   | _ -> raise Bad_syntax
 
 let rec take n l = if n <= 0 then [] else match l with [] -> [] | x :: r -> x :: take (n - 1) r
@@ -89,7 +115,7 @@ let ident k st0 next0 m =
     let rec find j = if j >= k then "old" else if ptr_of (st0 (nat_of_int j)) = p then "v" ^ string_of_int j else find (j + 1) in
     find 0
 
-let show_res k st0 next0 st1 p (o : int M.out) =
+let show_res scale k st0 next0 st1 p (o : int M.out) =
   let name = List.hd p in
   match o with
   | M.RSet m ->
@@ -101,8 +127,8 @@ let show_res k st0 next0 st1 p (o : int M.out) =
   | M.RElem x -> "e" ^ string_of_int x
   | M.RSlice s ->
     let els = match s with None -> [] | Some l -> l in
-    let n = if name = "append" && nth_arg p 2 <> "n" then List.length (ints_of' (nth_arg p 2)) else 0 in
-    "l" ^ b01 (s <> None) ^ ":" ^ str_ints (take n els) ^ ":" ^ str_ints (sorted (drop n els))
+    let n = if (name = "append" || name = "appendf") && nth_arg p 2 <> "n" then List.length (ints_of' (nth_arg p 2)) else 0 in
+    "l" ^ b01 (s <> None) ^ ":" ^ str_ints (take n els) ^ ":" ^ show_ints scale (sorted (drop n els))
   | M.RPanicNilMap -> "PANIC:nil"
   | M.RPanicIndex -> "PANIC:index"
   | M.RPanicNilFunc -> "PANIC:nil"
@@ -111,47 +137,58 @@ let show_res k st0 next0 st1 p (o : int M.out) =
 
 let res_ok = function M.Ok x -> x | _ -> failwith "model function is not Ok"
 
-let dump_model k st i =
+let dump_model scale k st i =
   let m = st (nat_of_int i) in
   match m with
   | None -> "n"
   | Some (_, l) ->
     let mask = String.concat "" (List.init mask_n (fun x -> b01 (res_ok (M.has eqb m x)))) in
     let rec first j = if j >= i then i else if ptr_of (st (nat_of_int j)) = ptr_of m then j else first (j + 1) in
-    string_of_int (int_of_z (res_ok (M.len m))) ^ (if res_ok (M.isEmpty m) then "E" else "F") ^ ":" ^ mask ^ ":" ^ str_ints (sorted l)
+    string_of_int (int_of_z (res_ok (M.len m))) ^ (if res_ok (M.isEmpty m) then "E" else "F") ^ ":" ^ mask ^ ":" ^ show_ints scale (sorted l)
     ^ "@" ^ string_of_int (first 0)
 
 let eval inp =
   match (try Some (parse_case inp) with Bad_syntax -> None) with
   | None -> "?"
-  | Some (k, ops) ->
+  | Some (scale, k, ops) ->
     if k < 1 || k > 8 then "?" else
     let st = ref (fun _ -> None) in
     let next = ref M.next0 in
     let outs = List.map (fun p ->
       let res =
+        if List.hd p = "hasd" then
+          (* Has of every item, one call of the model each; the variables do not change *)
+          (match (try Some (var k (nth_arg p 1), ints_of' (nth_arg p 2)) with Bad_syntax | Failure _ -> None) with
+           | None -> "?"
+           | Some (i, l) ->
+             let answers = List.map (fun x -> (x, snd (M.step eqb zero !st !next (M.OHas (i, x))))) l in
+             next := M.bump !next;
+             if List.exists (fun (_, r) -> match r with M.RBool _ -> false | _ -> true) answers then "UNMODELLED" else
+             let yes = List.filter_map (fun (x, r) -> if r = M.RBool true then Some x else None) answers in
+             "h" ^ string_of_int (List.length yes) ^ ":" ^ digest yes)
+        else
         match (try Some (build_op k !st p) with Bad_syntax | Failure _ -> None) with
         | None -> "?"
         | Some o ->
           let st0 = !st and n0 = int_of_pos !next in
           let (st', r) = M.step eqb zero st0 !next o in
           st := st'; next := M.bump !next;
-          show_res k st0 n0 st' p r in
-      String.concat "/" (res :: List.init k (fun i -> try dump_model k !st i with Failure _ -> "UNMODELLED"))) ops in
+          show_res scale k st0 n0 st' p r in
+      String.concat "/" (res :: List.init k (fun i -> try dump_model scale k !st i with Failure _ -> "UNMODELLED"))) ops in
     String.concat ";" outs
 
 (* ---------------------------------------------------------------- the property on the implementation's output *)
 
-let set_of l = List.sort_uniq compare l
-let union a b = set_of (a @ b)
-let diff a b = List.filter (fun x -> not (List.mem x b)) a
-let inter a b = List.filter (fun x -> List.mem x b) a
-let subset a b = List.for_all (fun x -> List.mem x b) a
+(* reference sets: OCaml's own balanced-tree sets of codes (nothing of the model is used) *)
+module IS = Set.Make (Int)
+let set_of l = IS.of_list l
+let show_set scale s = show_ints scale (IS.elements s)
+let braces s = let l = IS.elements s in if longer l 40 then Printf.sprintf "a set of %d" (List.length l) else "{" ^ str_ints l ^ "}"
 
 (* a dump against the reference set r of variable i: nil-ness is free (tracked, not prescribed),
    the rest is not *)
-let check_dump i (r : int list) d =
-  if d = "n" then (if r = [] then None else Some (Printf.sprintf "v%d is nil but the reference set is {%s}" i (str_ints r)))
+let check_dump scale i (r : IS.t) d =
+  if d = "n" then (if IS.is_empty r then None else Some (Printf.sprintf "v%d is nil but the reference set is %s" i (braces r)))
   else
   match String.split_on_char '@' d with
   | [body; a] ->
@@ -160,22 +197,25 @@ let check_dump i (r : int list) d =
        let n = String.length le in
        if n < 2 then Some "bad dump" else
        let len = int_of' (String.sub le 0 (n - 1)) and e = le.[n - 1] in
-       let wantmask = String.concat "" (List.init mask_n (fun x -> b01 (List.mem x r))) in
-       if len <> List.length r then Some (Printf.sprintf "v%d.Len() = %d, reference set {%s}" i len (str_ints r))
-       else if (e = 'E') <> (r = []) then Some (Printf.sprintf "v%d.IsEmpty() wrong, reference set {%s}" i (str_ints r))
-       else if mask <> wantmask then Some (Printf.sprintf "v%d.Has over 0..7 = %s, reference set {%s}" i mask (str_ints r))
-       else if keys <> str_ints r then Some (Printf.sprintf "v%d holds {%s}, reference set {%s}" i keys (str_ints r))
+       let wantmask = String.concat "" (List.init mask_n (fun x -> b01 (IS.mem x r))) in
+       if len <> IS.cardinal r then Some (Printf.sprintf "v%d.Len() = %d, reference set %s" i len (braces r))
+       else if (e = 'E') <> IS.is_empty r then Some (Printf.sprintf "v%d.IsEmpty() wrong, reference set %s" i (braces r))
+       else if mask <> wantmask then Some (Printf.sprintf "v%d.Has over 0..7 = %s, reference set %s" i mask (braces r))
+       else if keys <> show_set scale r then Some (Printf.sprintf "v%d holds {%s}, reference set %s (%s)" i keys (braces r) (show_set scale r))
        else if int_of' a <> i then Some (Printf.sprintf "v%d and v%s share one map" i a)
        else None
      | _ -> Some "bad dump")
   | _ -> Some "bad dump"
 
-let spec_case k ops out =
+let spec_case scale k ops out =
   let outs = if out = "" then [] else String.split_on_char ';' out in
   if List.length outs <> List.length ops then Some "number of outputs differs from number of operations" else
-  let r = Array.make k [] in          (* reference sets *)
+  let r = Array.make k IS.empty in    (* reference sets *)
   let isnil = Array.make k true in    (* nil-ness of every variable, read off the implementation's own dumps *)
-  let fail n p why = Some (Printf.sprintf "op#%d %s: %s" n (String.concat ":" p) why) in
+  let fail n p why =
+    let o = String.concat ":" p in
+    let o = if String.length o > 120 then String.sub o 0 120 ^ "..." else o in
+    Some (Printf.sprintf "op#%d %s: %s" n o why) in
   let rec go n ops outs =
     match ops, outs with
     | [], _ | _, [] -> None
@@ -205,41 +245,47 @@ let spec_case k ops out =
         | "new" -> fresh (set_of (l 2))
         | "keys" | "values" -> fresh (set_of (lnil 2))
         | "range" -> if nth_arg p 2 = "nil" then expect_res "PANIC:nil" else fresh (set_of (l 2))
-        | "newsize" -> fresh []
-        | "nil" -> r.(i) <- []; expect_res "Snil=0"
+        | "newsize" -> fresh IS.empty
+        | "nil" -> r.(i) <- IS.empty; expect_res "Snil=0"
         | "clone" -> fresh r.(v 2)
         | "isect" ->
           let js = l 2 in
           List.iter (fun j -> if j < 0 || j >= k then raise Bad_syntax) js;
-          fresh (match js with [] -> [] | j :: rest -> List.fold_left (fun a j -> inter a r.(j)) r.(j) rest)
-        | "add" -> receiver_alloc (union r.(i) (l 2))
-        | "addall" -> receiver_alloc (union r.(i) r.(v 2))
-        | "rm" -> receiver (diff r.(i) (l 2))
-        | "rmall" -> receiver (diff r.(i) r.(v 2))
-        | "clear" -> receiver []
+          fresh (match js with [] -> IS.empty | j :: rest -> List.fold_left (fun a j -> IS.inter a r.(j)) r.(j) rest)
+        | "add" -> receiver_alloc (IS.union r.(i) (set_of (l 2)))
+        | "addall" -> receiver_alloc (IS.union r.(i) r.(v 2))
+        | "rm" -> receiver (IS.diff r.(i) (set_of (l 2)))
+        | "rmall" -> receiver (IS.diff r.(i) r.(v 2))
+        | "clear" -> receiver IS.empty
         | "pop" ->
-          if r.(i) = [] then expect_res "e0"
+          if IS.is_empty r.(i) then expect_res "e0"
           else if String.length res < 2 || res.[0] <> 'e' then Some ("result " ^ res)
           else
             let x = int_of' (String.sub res 1 (String.length res - 1)) in
-            if not (List.mem x r.(i)) then Some (Printf.sprintf "Pop returned %d, not a member of {%s}" x (str_ints r.(i)))
-            else (r.(i) <- diff r.(i) [x]; None)
-        | "has" -> expect_res ("b" ^ b01 (List.mem (int_of' (nth_arg p 2)) r.(i)))
-        | "hasall" -> expect_res ("b" ^ b01 (subset (l 2) r.(i)))
-        | "hasany" -> expect_res ("b" ^ b01 (inter (l 2) r.(i) <> []))
-        | "len" -> expect_res ("i" ^ string_of_int (List.length r.(i)))
-        | "empty" -> expect_res ("b" ^ b01 (r.(i) = []))
-        | "meets" -> expect_res ("b" ^ b01 (inter r.(i) r.(v 2) <> []))
-        | "sub" -> expect_res ("b" ^ b01 (subset r.(i) r.(v 2)))
-        | "eq" -> expect_res ("b" ^ b01 (r.(i) = r.(v 2)))
-        | "slice" | "append" ->
-          let (prefix, order) = if List.hd p = "slice" then (".", l 2) else ((if nth_arg p 2 = "n" then "." else str_ints (l 2)), l 3) in
+            if not (IS.mem x r.(i)) then Some (Printf.sprintf "Pop returned %d, not a member of %s" x (braces r.(i)))
+            else (r.(i) <- IS.remove x r.(i); None)
+        | "has" -> expect_res ("b" ^ b01 (IS.mem (int_of' (nth_arg p 2)) r.(i)))
+        | "hasd" ->
+          let yes = List.filter (fun x -> IS.mem x r.(i)) (l 2) in
+          (match expect_res ("h" ^ string_of_int (List.length yes) ^ ":" ^ digest yes) with
+           | None -> None
+           | Some _ -> Some (Printf.sprintf "Has, asked about each of the %d items: answers %s, by membership in the reference set %d say yes (%s)"
+                               (List.length (l 2)) res (List.length yes) (digest yes)))
+        | "hasall" -> expect_res ("b" ^ b01 (List.for_all (fun x -> IS.mem x r.(i)) (l 2)))
+        | "hasany" -> expect_res ("b" ^ b01 (List.exists (fun x -> IS.mem x r.(i)) (l 2)))
+        | "len" -> expect_res ("i" ^ string_of_int (IS.cardinal r.(i)))
+        | "empty" -> expect_res ("b" ^ b01 (IS.is_empty r.(i)))
+        | "meets" -> expect_res ("b" ^ b01 (not (IS.disjoint r.(i) r.(v 2))))
+        | "sub" -> expect_res ("b" ^ b01 (IS.subset r.(i) r.(v 2)))
+        | "eq" -> expect_res ("b" ^ b01 (IS.equal r.(i) r.(v 2)))
+        | "slice" | "append" | "appendf" ->
+          let (prefix, order) = if List.hd p = "slice" then (".", nth_arg p 2) else ((if nth_arg p 2 = "n" then "." else str_ints (l 2)), nth_arg p 3) in
           (match String.split_on_char ':' res with
            | [nonnil; pre; rest] ->
              if pre <> prefix then Some "the given prefix was not preserved"
-             else if rest <> str_ints r.(i) then Some (Printf.sprintf "listed {%s}, members {%s}: not each member exactly once" rest (str_ints r.(i)))
-             else if sorted order <> r.(i) then Some "the recorded order is not an enumeration of the members"
-             else if List.hd p = "slice" && (nonnil = "l1") <> (r.(i) <> []) then Some "Slice must be nil exactly for the empty set"
+             else if rest <> show_set scale r.(i) then Some (Printf.sprintf "listed {%s}, members %s (%s): not each member exactly once" rest (braces r.(i)) (show_set scale r.(i)))
+             else if not (scale && order = "#") && sorted (ints_of' order) <> IS.elements r.(i) then Some "the recorded order is not an enumeration of the members"
+             else if List.hd p = "slice" && (nonnil = "l1") <> not (IS.is_empty r.(i)) then Some "Slice must be nil exactly for the empty set"
              else None
            | _ -> Some ("result " ^ res))
         | _ -> raise Bad_syntax in
@@ -249,7 +295,7 @@ let spec_case k ops out =
          if List.length dumps <> k then fail n p "bad dump count" else
          let rec chk j = function
            | [] -> None
-           | d :: ds -> (match check_dump j r.(j) d with Some why -> fail n p ("afterwards " ^ why) | None -> chk (j + 1) ds) in
+           | d :: ds -> (match check_dump scale j r.(j) d with Some why -> fail n p ("afterwards " ^ why) | None -> chk (j + 1) ds) in
          (match chk 0 dumps with
           | Some x -> Some x
           | None ->
@@ -276,10 +322,10 @@ let spec prop inp out =
   if prop <> "C18" then None else
   match (try Some (parse_case inp) with Bad_syntax | Failure _ -> None) with
   | None -> None                                  (* not an input of this harness *)
-  | Some (k, ops) ->
+  | Some (scale, k, ops) ->
     if k < 1 || k > 8 then None else
     (* the input parses: from here on anything unreadable is the implementation's output *)
-    try spec_case k ops out with
+    try spec_case scale k ops out with
     | Bad_syntax -> if String.contains out '?' then None else Some "unreadable output"
     | Failure _ | Invalid_argument _ | Not_found -> Some "unreadable output"
 
